@@ -594,7 +594,7 @@ def mark(attr: str) -> str:
     return MARK_L + attr + MARK_R
 
 
-def _format(template: str, args: List[str], where: str) -> str:
+def _format(template: str, args: List[str], where: str, converted: Optional[Set[str]] = None) -> str:
     out = []
     auto = 0
     try:
@@ -619,6 +619,10 @@ def _format(template: str, args: List[str], where: str) -> str:
         if idx >= len(args):
             raise UnknownIdiom('%s: placeholder {%d} has no argument in %r' % (where, idx, template))
         out.append(args[idx])
+        if conv in ('r', 'a') and converted is not None:
+            m = _MARK_RE.fullmatch(args[idx])
+            if m:
+                converted.add(m.group(1))   # rendered as a literal (repr), never as an expression
     return ''.join(out)
 
 
@@ -633,7 +637,7 @@ class CxClass:
         self.is_block = bool(project.is_subclass(cls.qual, base_parent))
         init = project.lookup_method(cls.qual, '__init__')
         self.params: List[str] = []
-        # attr -> ('param', index) | ('name', template with {0}.., [param indexes]) | ('other',)
+        # attr -> ('param', index) | ('name', template with {0}.., [param indexes]) | ('const', text) | ('other',)
         self.attr_src: Dict[str, tuple] = {}
         if init is not None and init.cls is not None and init.cls.qual == cls.qual:
             self._read_init(init)
@@ -643,6 +647,7 @@ class CxClass:
         if src is None:
             raise UnknownIdiom('%s has no src()' % cls.qual)
         self.src_func = src
+        self.literal_attrs: Set[str] = set()   # attributes rendered through !r / !a
         self.lines = self._render(src)
 
     # -- constructor: which attribute holds which parameter
@@ -669,6 +674,32 @@ class CxClass:
                 and isinstance(v.func.value, ast.Constant) and isinstance(v.func.value.value, str) and not v.keywords \
                 and all(isinstance(x, ast.Name) and x.id in self.params for x in v.args):
             return ('name', v.func.value.value, [self.params.index(x.id) for x in v.args])
+        if isinstance(v, ast.JoinedStr):
+            # f'dict_groups_{unique_idx}'  ==  'dict_groups_{0}'.format(unique_idx)
+            tmpl, idxs = '', []
+            for part in v.values:
+                if isinstance(part, ast.Constant) and isinstance(part.value, str):
+                    tmpl += part.value.replace('{', '{{').replace('}', '}}')
+                elif isinstance(part, ast.FormattedValue) and part.format_spec is None and part.conversion == -1 \
+                        and isinstance(part.value, ast.Name) and part.value.id in self.params:
+                    tmpl += '{%d}' % len(idxs)
+                    idxs.append(self.params.index(part.value.id))
+                else:
+                    raise UnknownIdiom('%s: attribute value %s' % (init.qual, short(v, 60)))
+            return ('name', tmpl, idxs)
+        if isinstance(v, ast.BinOp) and isinstance(v.op, ast.Mod) and isinstance(v.left, ast.Constant) and isinstance(v.left.value, str):
+            # 'dict_groups_%d' % unique_idx
+            args = v.right.elts if isinstance(v.right, ast.Tuple) else [v.right]
+            parts = re.split(r'%[ds]', v.left.value)
+            if len(parts) == len(args) + 1 and all('%' not in x for x in parts) \
+                    and all(isinstance(x, ast.Name) and x.id in self.params for x in args):
+                tmpl = parts[0].replace('{', '{{').replace('}', '}}')
+                for i, x in enumerate(parts[1:]):
+                    tmpl += '{%d}' % i + x.replace('{', '{{').replace('}', '}}')
+                return ('name', tmpl, [self.params.index(x.id) for x in args])
+            raise UnknownIdiom('%s: attribute value %s' % (init.qual, short(v, 60)))
+        if isinstance(v, ast.Constant) and isinstance(v.value, str):
+            return ('const', v.value)   # a fixed text (e.g. a generated variable name that is the same for every node)
         if isinstance(v, (ast.List, ast.Dict, ast.Constant)):
             return ('other',)
         raise UnknownIdiom('%s: attribute value %s' % (init.qual, short(v, 60)))
@@ -709,7 +740,7 @@ class CxClass:
                     args = [ev(a) for a in e.args]
                     if not all(isinstance(a, str) for a in args):
                         raise UnknownIdiom('%s: format arguments of %s' % (where, short(e, 60)))
-                    return _format(t, args, where)
+                    return _format(t, args, where, self.literal_attrs)
                 if f.attr == 'join' and len(e.args) == 1 and not e.keywords:
                     sep = ev(f.value)
                     seq = ev(e.args[0])
@@ -764,6 +795,58 @@ class CxClass:
     def param_of_attr(self, attr: str) -> Optional[int]:
         s = self.attr_src.get(attr)
         return s[1] if s and s[0] == 'param' else None
+
+    def fixed_text_of_attr(self, attr: str) -> Optional[str]:
+        """The text an attribute renders as when it is the same for every
+        instance of the construct (a string constant, or a name template
+        without any placeholder); None when it depends on a constructor
+        argument."""
+        s = self.attr_src.get(attr)
+        if s and s[0] == 'const':
+            return s[1]
+        if s and s[0] == 'name' and not s[2]:
+            return _format(s[1], [], self.qual)
+        return None
+
+    def resolved_code_lines(self) -> List[str]:
+        """code_lines() with the marks of instance-independent attributes
+        replaced by their text (so that a variable name stored in such an
+        attribute counts as the fixed name it is)."""
+        def sub(m):
+            t = self.fixed_text_of_attr(m.group(1))
+            return m.group(0) if t is None else t
+        return [_MARK_RE.sub(sub, ln) for ln in self.code_lines()]
+
+    def assigned_attrs(self) -> Set[str]:
+        """Attributes rendered as the target of a plain assignment
+        (`<attr text> = ...`): generated variables this construct binds."""
+        out = set()
+        for ln in self.code_lines():
+            m = re.match(MARK_L + r'(\w+)' + MARK_R + r'\s*=(?!=)', _blank_strings(ln))
+            if m:
+                out.add(m.group(1))
+        return out
+
+    def expression_attrs(self) -> Set[str]:
+        """Attributes rendered in code position (outside string quotes) other
+        than as a subscript index/slice bound or as an assignment target:
+        their text is evaluated as an expression of the generated finder."""
+        out = set()
+        for ln in self.code_lines():
+            b = _blank_strings(ln)
+            tgt = re.match(MARK_L + r'(\w+)' + MARK_R + r'\s*=(?!=)', b)
+            for m in _MARK_RE.finditer(b):
+                if m.group(1).startswith(':') or m.group(1) in self.literal_attrs:
+                    continue
+                if tgt and m.start() == 0:
+                    continue
+                before, after = b[:m.start()], b[m.end():]
+                if re.search(r'[\w\]\)]\[$', before) and re.match(r':?\]', after):
+                    continue   # X[<attr>] / X[<attr>:]
+                if re.search(r'\[:$', before) and after.startswith(']'):
+                    continue   # X[:<attr>]
+                out.add(m.group(1))
+        return out
 
 
 def _strip_comment(ln: str) -> str:
